@@ -22,6 +22,9 @@ def build(profile='dev', features=()):
         lock = os.path.join(REPO, 'Cargo.lock')
         import hashlib
         target = os.path.join(VERIF, '.cache', 'replay-target-' + hashlib.sha1(os.path.abspath(REPO).encode()).hexdigest()[:8])
+        if os.environ.get('VERIF_SCRATCH_TARGET'):
+            # evaluation of a scratch worktree: keep the build output with the worktree so that it is removed with it
+            target = os.path.join(os.environ['VERIF_SCRATCH_TARGET'], 'replay-target')
         env = dict(os.environ)
         env['CARGO_TARGET_DIR'] = target
         env['CARGO_NET_OFFLINE'] = 'true'
